@@ -1,13 +1,633 @@
-// Package c15 is the correspondence harness for property C15 (placeholder).
+// Package c15 is the correspondence harness for property C15: the stub subscribes exactly
+// the implemented events and dispatches faithfully.
+//
+// Go cannot build types at run time, so the harness generates Go source — one struct type per
+// handler subset, embedding the one-method handler structs of plug.go — into a git-ignored
+// subdirectory of the harness module, compiles it together with plug.go into a worker binary
+// (same go.mod, hence the same `replace github.com/containerd/nri => $VERIF_REPO`), and lets
+// that worker drive a real stub.New/Start per case from a scripted runtime end (real ttrpc
+// over the real multiplexer, wired as pkg/adaptation does). Observation per case: creation
+// result, name/index registered, configuration reply, the stub's timeouts, and per request the
+// plugin methods invoked with canonical arguments and the reply or error the runtime end got.
 package c15
 
 import (
-	"errors"
+	"bufio"
+	"bytes"
+	"encoding/json"
+	"fmt"
+	"math/rand"
+	"os"
+	"os/exec"
+	"path/filepath"
+	"sort"
+	"strings"
+	"time"
+
+	"github.com/containerd/nri/pkg/api"
 
 	"verifh/internal/hx"
 	"verifh/internal/lineio"
 )
 
+const allEv = uint32(0x1fff)
+
+// ---------------------------------------------------------------- payload generators
+
+func rstr(r *rand.Rand, n int) string {
+	const al = "abcdefghijklmnopqrstuvwxyz0123456789-_./=, éß☃"
+	rs := []rune(al)
+	b := make([]rune, 1+r.Intn(n))
+	for i := range b {
+		b[i] = rs[r.Intn(len(rs))]
+	}
+	return string(b)
+}
+
+func rmap(r *rand.Rand) map[string]string {
+	if r.Intn(3) == 0 {
+		return nil
+	}
+	m := map[string]string{}
+	for i := r.Intn(4); i > 0; i-- {
+		m[rstr(r, 8)] = rstr(r, 12)
+	}
+	return m
+}
+
+func genRes(r *rand.Rand) *api.LinuxResources {
+	res := &api.LinuxResources{}
+	if r.Intn(2) == 0 {
+		res.Memory = &api.LinuxMemory{}
+		if r.Intn(2) == 0 {
+			res.Memory.Limit = api.Int64(int64(r.Intn(1 << 30)))
+		}
+		if r.Intn(3) == 0 {
+			res.Memory.Swap = api.Int64(0) // set to zero ≠ unset
+		}
+	}
+	if r.Intn(2) == 0 {
+		res.Cpu = &api.LinuxCPU{Cpus: fmt.Sprintf("0-%d", r.Intn(8))}
+		if r.Intn(2) == 0 {
+			res.Cpu.Shares = api.UInt64(uint64(r.Intn(4096)))
+		}
+		if r.Intn(2) == 0 {
+			res.Cpu.Quota = api.Int64(int64(r.Intn(100000)) - 1)
+		}
+	}
+	if r.Intn(4) == 0 {
+		res.Unified = map[string]string{"memory.high": fmt.Sprint(r.Intn(1 << 20))}
+	}
+	if r.Intn(5) == 0 {
+		res.HugepageLimits = []*api.HugepageLimit{{PageSize: "2MB", Limit: uint64(r.Intn(64))}}
+	}
+	return res
+}
+
+func genPod(r *rand.Rand, rich bool) *api.PodSandbox {
+	p := &api.PodSandbox{Id: "p" + rstr(r, 6)}
+	if r.Intn(12) == 0 {
+		return &api.PodSandbox{} // present but empty ≠ nil
+	}
+	if rich {
+		p.Name, p.Uid, p.Namespace = rstr(r, 10), rstr(r, 8), rstr(r, 6)
+		p.Labels, p.Annotations = rmap(r), rmap(r)
+		p.Pid = uint32(r.Intn(1 << 16))
+		if r.Intn(2) == 0 {
+			p.Linux = &api.LinuxPodSandbox{CgroupParent: "/" + rstr(r, 8), PodOverhead: genRes(r)}
+		}
+		if r.Intn(3) == 0 {
+			p.Ips = []string{"10.0.0." + fmt.Sprint(r.Intn(255))}
+		}
+	}
+	return p
+}
+
+func genCtr(r *rand.Rand, rich bool) *api.Container {
+	c := &api.Container{Id: "c" + rstr(r, 6), PodSandboxId: "p" + rstr(r, 4)}
+	if r.Intn(12) == 0 {
+		return &api.Container{}
+	}
+	if rich {
+		c.Name = rstr(r, 10)
+		c.State = api.ContainerState(r.Intn(5))
+		c.Labels, c.Annotations = rmap(r), rmap(r)
+		c.Args = []string{rstr(r, 5), rstr(r, 5)}
+		c.Env = []string{"A=" + rstr(r, 4)}
+		if r.Intn(2) == 0 {
+			c.Mounts = []*api.Mount{{Destination: "/" + rstr(r, 6), Source: "/" + rstr(r, 6), Type: "bind", Options: []string{"ro"}}}
+		}
+		if r.Intn(2) == 0 {
+			c.Linux = &api.LinuxContainer{Resources: genRes(r), CgroupsPath: "/" + rstr(r, 6)}
+		}
+		c.Pid = uint32(r.Intn(1 << 16))
+		c.CreatedAt = r.Int63n(1 << 40)
+	}
+	return c
+}
+
+func genAdjust(r *rand.Rand) *api.ContainerAdjustment {
+	a := &api.ContainerAdjustment{}
+	switch r.Intn(5) {
+	case 0: // present but empty
+	case 1:
+		a.Annotations = map[string]string{rstr(r, 6): rstr(r, 6), "-" + rstr(r, 4): ""}
+	case 2:
+		a.Env = []*api.KeyValue{{Key: rstr(r, 4), Value: rstr(r, 6)}}
+		a.Args = []string{"", rstr(r, 4)}
+	case 3:
+		a.Mounts = []*api.Mount{{Destination: "/" + rstr(r, 5), Source: "/" + rstr(r, 5), Type: "bind"}}
+		a.Linux = &api.LinuxContainerAdjustment{Resources: genRes(r), CgroupsPath: rstr(r, 5)}
+	case 4:
+		a.Linux = &api.LinuxContainerAdjustment{OomScoreAdj: &api.OptionalInt{Value: int64(r.Intn(2000) - 1000)}}
+		a.Rlimits = []*api.POSIXRlimit{{Type: "RLIMIT_NOFILE", Hard: uint64(r.Intn(4096)), Soft: uint64(r.Intn(1024))}}
+	}
+	return a
+}
+
+func genUpdates(r *rand.Rand) []string {
+	out := []string{}
+	n := 0
+	switch r.Intn(4) {
+	case 1:
+		n = 1
+	case 2:
+		n = 2
+	case 3:
+		n = 1 + r.Intn(4)
+	}
+	for i := 0; i < n; i++ {
+		u := &api.ContainerUpdate{ContainerId: "c" + rstr(r, 5), IgnoreFailure: r.Intn(3) == 0}
+		if r.Intn(4) != 0 {
+			u.Linux = &api.LinuxContainerUpdate{Resources: genRes(r)}
+		}
+		out = append(out, canonS(u))
+	}
+	return out
+}
+
+func optPod(r *rand.Rand, rich bool) *string {
+	if r.Intn(10) == 0 {
+		return nil
+	}
+	return Canon(genPod(r, rich))
+}
+func optCtr(r *rand.Rand, rich bool) *string {
+	if r.Intn(10) == 0 {
+		return nil
+	}
+	return Canon(genCtr(r, rich))
+}
+func optRes(r *rand.Rand) *string {
+	if r.Intn(6) == 0 {
+		return nil
+	}
+	return Canon(genRes(r))
+}
+
+func errText(r *rand.Rand) string {
+	if r.Intn(4) != 0 {
+		return ""
+	}
+	return "E:" + rstr(r, 16)
+}
+
+// requestFor builds the request the runtime sends for lifecycle event e.
+func requestFor(r *rand.Rand, e int32, rich bool) ReqIn {
+	q := ReqIn{Event: e, Pods: []string{}, Ctrs: []string{}, Updates: []string{}}
+	switch e {
+	case 4:
+		q.Op = "CreateContainer"
+	case 8:
+		q.Op = "UpdateContainer"
+	case 10:
+		q.Op = "StopContainer"
+	case 12:
+		q.Op = "UpdatePodSandbox"
+	default:
+		q.Op = "StateChange"
+	}
+	q.Pod = optPod(r, rich)
+	if e != 12 {
+		q.Ctr = optCtr(r, rich)
+	}
+	if e == 8 || e == 12 {
+		q.Res = optRes(r)
+	}
+	if e == 12 {
+		q.Ovh = optRes(r)
+	}
+	// the script is always fully populated: a handler that can return a field returns it
+	if r.Intn(4) != 0 {
+		q.Adjust = Canon(genAdjust(r))
+	}
+	q.Updates = genUpdates(r)
+	q.Err = errText(r)
+	return q
+}
+
+func foreign(r *rand.Rand, e int32) ReqIn {
+	q := requestFor(r, e, false)
+	q.Op = "StateChange"
+	q.Res, q.Ovh = nil, nil
+	if q.Ctr == nil {
+		q.Ctr = optCtr(r, false)
+	}
+	return q
+}
+
+func syncReq(r *rand.Rand, more bool, rich bool) ReqIn {
+	q := ReqIn{Op: "Synchronize", More: more, Pods: []string{}, Ctrs: []string{}, Updates: genUpdates(r), Err: ""}
+	for i := r.Intn(4); i > 0; i-- {
+		q.Pods = append(q.Pods, canonS(genPod(r, rich)))
+	}
+	for i := r.Intn(5); i > 0; i-- {
+		q.Ctrs = append(q.Ctrs, canonS(genCtr(r, rich)))
+	}
+	if !more {
+		q.Err = errText(r)
+	}
+	return q
+}
+
+// fullReqs: every lifecycle event once (shuffled), two repeats, StateChange notifications
+// carrying events that have no StateChange handler, a split synchronisation, a second
+// synchronisation, a dangling More chunk, and Shutdown last.
+func fullReqs(r *rand.Rand, rich bool) []ReqIn {
+	var qs []ReqIn
+	for e := int32(1); e <= 13; e++ {
+		qs = append(qs, requestFor(r, e, rich))
+	}
+	for i := 0; i < 2; i++ {
+		qs = append(qs, requestFor(r, int32(1+r.Intn(13)), rich))
+	}
+	for _, e := range []int32{0, 4, 8, 10, 12, 14, int32(15 + r.Intn(40))} {
+		qs = append(qs, foreign(r, e))
+	}
+	r.Shuffle(len(qs), func(i, j int) { qs[i], qs[j] = qs[j], qs[i] })
+	// synchronisations are spliced in keeping their relative order
+	var ss []ReqIn
+	for i := r.Intn(4); i > 0; i-- {
+		ss = append(ss, syncReq(r, true, rich))
+	}
+	ss = append(ss, syncReq(r, false, rich))
+	ss = append(ss, syncReq(r, false, rich))
+	if r.Intn(2) == 0 {
+		ss = append(ss, syncReq(r, true, rich))
+	}
+	pos := make([]int, len(ss))
+	for i := range pos {
+		pos[i] = r.Intn(len(qs) + 1)
+	}
+	sort.Ints(pos)
+	var out []ReqIn
+	k := 0
+	for i := 0; i <= len(qs); i++ {
+		for k < len(ss) && pos[k] == i {
+			out = append(out, ss[k])
+			k++
+		}
+		if i < len(qs) {
+			out = append(out, qs[i])
+		}
+	}
+	out = append(out, ReqIn{Op: "Shutdown", Pods: []string{}, Ctrs: []string{}, Updates: []string{}})
+	return out
+}
+
+func shortReqs(r *rand.Rand, n int) []ReqIn {
+	var qs []ReqIn
+	for i := 0; i < n; i++ {
+		qs = append(qs, requestFor(r, int32(1+r.Intn(13)), r.Intn(3) == 0))
+	}
+	return qs
+}
+
+func randSubsetOf(r *rand.Rand, set uint32, nonEmpty bool) uint32 {
+	var m uint32
+	for b := uint32(0); b < 32; b++ {
+		if set&(1<<b) != 0 && r.Intn(2) == 0 {
+			m |= 1 << b
+		}
+	}
+	if m == 0 && nonEmpty && set != 0 {
+		for {
+			b := uint32(r.Intn(32))
+			if set&(1<<b) != 0 {
+				return 1 << b
+			}
+		}
+	}
+	return m
+}
+
+func cfgIn(r *rand.Rand, events uint32, err string) CfgIn {
+	return CfgIn{Config: rstr(r, 20), RName: rstr(r, 8), RVer: "v" + rstr(r, 5),
+		RegTo: int64(r.Intn(100000)), ReqTo: int64(r.Intn(100000)), Events: events, Err: err}
+}
+
+// sessionsFor produces the cases for one set of implemented events.
+func sessionsFor(r *rand.Rand, ev uint32, thoroughBulk bool) []SessionIn {
+	var out []SessionIn
+	aux := func(cfg bool) uint32 {
+		t := ev
+		if cfg {
+			t |= 1 << 13
+		}
+		t |= uint32(r.Intn(4)) << 14
+		return t
+	}
+	name := func() (string, string) { return "p" + rstr(r, 6), fmt.Sprintf("%02d", r.Intn(100)) }
+	mk := func(t uint32, c CfgIn, reqs []ReqIn) {
+		n, i := name()
+		out = append(out, SessionIn{Kind: "session", Type: t, Name: n, Idx: i, Cfg: c, Reqs: reqs})
+	}
+	// no Configure method: the stub answers with its own mask (scripted events are never read)
+	mk(aux(false), cfgIn(r, r.Uint32(), ""), fullReqs(r, !thoroughBulk || r.Intn(4) == 0))
+	if ev == 0 {
+		return out
+	}
+	tc := aux(true)
+	rest := func() []ReqIn {
+		if thoroughBulk {
+			return shortReqs(r, 3)
+		}
+		return fullReqs(r, r.Intn(2) == 0)
+	}
+	outside := allEv &^ ev
+	// 0: everything implemented
+	mk(tc, cfgIn(r, 0, ""), rest())
+	// a subset (proper if possible)
+	mk(tc, cfgIn(r, randSubsetOf(r, ev, true), ""), rest())
+	// exactly the implemented set
+	mk(tc, cfgIn(r, ev, ""), shortReqs(r, 2))
+	// superset and disjoint: within the thirteen if there is room, else beyond them
+	extra := randSubsetOf(r, outside, true)
+	if extra == 0 {
+		extra = 1 << uint(13+r.Intn(19))
+	}
+	mk(tc, cfgIn(r, ev|extra, ""), nil)
+	mk(tc, cfgIn(r, extra, ""), nil)
+	// a bit beyond the defined events / the sign bit
+	if r.Intn(2) == 0 {
+		mk(tc, cfgIn(r, randSubsetOf(r, ev, false)|1<<uint(13+r.Intn(19)), ""), nil)
+	}
+	// Configure fails
+	mk(tc, cfgIn(r, randSubsetOf(r, allEv, false), "E:"+rstr(r, 12)), nil)
+	return out
+}
+
+func genSessions(o *hx.Opts) []SessionIn {
+	r := o.Rand(15)
+	var out []SessionIn
+	seen := map[uint32]bool{}
+	var evs []uint32
+	add := func(ev uint32) {
+		if !seen[ev] {
+			seen[ev] = true
+			evs = append(evs, ev)
+		}
+	}
+	if o.Thorough() {
+		for ev := uint32(0); ev <= allEv; ev++ {
+			add(ev)
+		}
+	} else {
+		add(0)
+		add(allEv)
+		for b := uint(0); b < 13; b++ {
+			add(1 << b)
+		}
+		for len(evs) < 15+o.N(160, 160) {
+			add(r.Uint32() & allEv)
+		}
+	}
+	for i, ev := range evs {
+		bulk := o.Thorough() && i%16 != 0 && ev != allEv && ev&(ev-1) != 0
+		out = append(out, sessionsFor(r, ev, bulk)...)
+	}
+	// the empty handler set with every combination of the event-less handlers
+	for a := uint32(0); a < 8; a++ {
+		out = append(out, SessionIn{Kind: "session", Type: a << 13, Name: "none", Idx: "00", Cfg: cfgIn(r, 0, ""), Reqs: shortReqs(r, 1)})
+	}
+	// the full handler set asked for each single event, and for each single missing event
+	for b := uint(0); b < 13; b++ {
+		out = append(out, SessionIn{Kind: "session", Type: allEv | 1<<13, Name: "one", Idx: "01", Cfg: cfgIn(r, 1<<b, ""), Reqs: shortReqs(r, 2)})
+		out = append(out, SessionIn{Kind: "session", Type: (allEv &^ (1 << b)) | 1<<13, Name: "miss", Idx: "02", Cfg: cfgIn(r, 1<<b, ""), Reqs: nil})
+		out = append(out, SessionIn{Kind: "session", Type: (allEv &^ (1 << b)) | 1<<13 | uint32(r.Intn(4))<<14, Name: "allbut", Idx: "03", Cfg: cfgIn(r, 0, ""), Reqs: fullReqs(r, false)})
+	}
+	for i := range out {
+		if out[i].Reqs == nil {
+			out[i].Reqs = []ReqIn{}
+		}
+	}
+	return out
+}
+
+// ---------------------------------------------------------------- generated worker
+
+func genSource(types []uint32) []byte {
+	var b bytes.Buffer
+	b.WriteString("// Code generated by verifh C15 at run time. DO NOT EDIT.\npackage main\n\nimport c15 \"verifh/c15\"\n\n")
+	for _, t := range types {
+		fmt.Fprintf(&b, "type T%04x struct {\n", t)
+		for bit := 0; bit < 16; bit++ {
+			if t&(1<<uint(bit)) != 0 {
+				fmt.Fprintf(&b, "\tc15.%s\n", HandlerStructs[bit])
+			}
+		}
+		b.WriteString("}\n")
+	}
+	b.WriteString("\nfunc main() {\n\tc15.WorkerMain(map[uint32]func(*c15.Rec) interface{}{\n")
+	for _, t := range types {
+		fmt.Fprintf(&b, "\t\t0x%04x: func(r *c15.Rec) interface{} { return &T%04x{", t, t)
+		first := true
+		for bit := 0; bit < 16; bit++ {
+			if t&(1<<uint(bit)) != 0 {
+				if !first {
+					b.WriteString(", ")
+				}
+				first = false
+				fmt.Fprintf(&b, "c15.%s{R: r}", HandlerStructs[bit])
+			}
+		}
+		b.WriteString("} },\n")
+	}
+	b.WriteString("\t})\n}\n")
+	return b.Bytes()
+}
+
+// buildWorker writes the generated main package into harness/c15/gen_<pid>/ (git-ignored),
+// builds it with the harness module's go.mod (or the redirected copy bin/check made for a
+// scratch repository) and removes the directory again.
+func buildWorker(o *hx.Opts, types []uint32) (string, error) {
+	verif := os.Getenv("VERIF_DIR")
+	if verif == "" {
+		if exe, err := os.Executable(); err == nil {
+			// .build/verifh or a private copy: fall back to the working directory
+			_ = exe
+		}
+		wd, _ := os.Getwd()
+		verif = wd
+	}
+	harness := filepath.Join(verif, "harness")
+	if _, err := os.Stat(filepath.Join(harness, "go.mod")); err != nil {
+		return "", fmt.Errorf("cannot find the harness module (VERIF_DIR=%q): %w", verif, err)
+	}
+	dirName := fmt.Sprintf("gen_%d_%d", os.Getpid(), time.Now().UnixNano()%1000000)
+	dir := filepath.Join(harness, "c15", dirName)
+	if err := os.MkdirAll(dir, 0o755); err != nil {
+		return "", err
+	}
+	defer os.RemoveAll(dir)
+	if err := os.WriteFile(filepath.Join(dir, "main.go"), genSource(types), 0o644); err != nil {
+		return "", err
+	}
+	bin := filepath.Join(o.Scratch, "c15worker")
+	args := []string{"build", "-tags", "verif", "-o", bin}
+	repo := os.Getenv("VERIF_REPO")
+	if repo != "" {
+		if rp, err := filepath.EvalSymlinks(repo); err == nil && rp != "/repo" {
+			alt := filepath.Join(os.Getenv("VERIF_BUILD"), "alt.mod")
+			if _, err := os.Stat(alt); err != nil {
+				return "", fmt.Errorf("VERIF_REPO=%s but %s is missing", repo, alt)
+			}
+			args = append(args, "-modfile", alt)
+		}
+	}
+	args = append(args, "./c15/"+dirName)
+	cmd := exec.Command("go", args...)
+	cmd.Dir = harness
+	cmd.Env = append(os.Environ(), "GOFLAGS=-mod=mod", "GOPROXY=off", "GOSUMDB=off", "GOTOOLCHAIN=local", "CGO_ENABLED=0")
+	outb, err := cmd.CombinedOutput()
+	if err != nil {
+		return "", fmt.Errorf("building the generated worker failed: %v\n%s", err, tail(string(outb), 3000))
+	}
+	return bin, nil
+}
+
+func tail(s string, n int) string {
+	if len(s) > n {
+		return s[len(s)-n:]
+	}
+	return s
+}
+
+func runWorker(bin string, ids []string, ins []SessionIn, timeout time.Duration) (map[string]SessionObs, error) {
+	cmd := exec.Command(bin)
+	stdin, err := cmd.StdinPipe()
+	if err != nil {
+		return nil, err
+	}
+	stdout, err := cmd.StdoutPipe()
+	if err != nil {
+		return nil, err
+	}
+	var stderr bytes.Buffer
+	cmd.Stderr = &stderr
+	if err := cmd.Start(); err != nil {
+		return nil, err
+	}
+	timer := time.AfterFunc(timeout, func() { cmd.Process.Kill() })
+	defer timer.Stop()
+	go func() {
+		w := bufio.NewWriterSize(stdin, 1<<20)
+		enc := json.NewEncoder(w)
+		for i := range ins {
+			enc.Encode(workerJob{ID: ids[i], In: ins[i]})
+		}
+		w.Flush()
+		stdin.Close()
+	}()
+	res := map[string]SessionObs{}
+	sc := bufio.NewScanner(stdout)
+	sc.Buffer(make([]byte, 1<<20), 1<<28)
+	for sc.Scan() {
+		var wr workerRes
+		if err := json.Unmarshal(sc.Bytes(), &wr); err != nil {
+			cmd.Process.Kill()
+			cmd.Wait()
+			return nil, fmt.Errorf("bad worker output: %v", err)
+		}
+		res[wr.ID] = wr.Obs
+	}
+	werr := cmd.Wait()
+	if werr != nil && len(res) < len(ins) {
+		// the worker died (a crash inside the stub's own goroutines cannot be recovered):
+		// every case without a result is observed as crashed
+		first := strings.SplitN(strings.TrimSpace(stderr.String()), "\n", 2)[0]
+		for _, id := range ids {
+			if _, ok := res[id]; !ok {
+				res[id] = SessionObs{Start: "none", CfgCalls: []CallObs{}, Reqs: []ReqObs{}, Extra: []CallObs{},
+					CfgErr: ErrObs{Extra: -1}, Note: "crashed: worker died (" + werr.Error() + "): " + first}
+			}
+		}
+	}
+	return res, nil
+}
+
 func Run(o *hx.Opts, w *lineio.Writer) error {
-	return errors.New("C15 harness not implemented")
+	var ins []SessionIn
+	var ids []string
+	if o.Replay != "" {
+		cases, err := hx.ReplayCases(o.Replay)
+		if err != nil {
+			return err
+		}
+		for _, c := range cases {
+			var in SessionIn
+			if err := json.Unmarshal(c.In, &in); err != nil {
+				return err
+			}
+			if in.Kind != "session" {
+				return fmt.Errorf("unknown case kind %q", in.Kind)
+			}
+			if in.Reqs == nil {
+				in.Reqs = []ReqIn{}
+			}
+			ins = append(ins, in)
+			ids = append(ids, c.ID)
+		}
+	} else {
+		ins = genSessions(o)
+		for i, in := range ins {
+			ids = append(ids, fmt.Sprintf("s%05d-t%04x", i, in.Type))
+		}
+	}
+	if len(ins) == 0 {
+		return nil
+	}
+	tset := map[uint32]bool{}
+	for _, in := range ins {
+		if in.Type > 0xffff {
+			return fmt.Errorf("type id %#x out of range", in.Type)
+		}
+		tset[in.Type] = true
+	}
+	var types []uint32
+	for t := range tset {
+		types = append(types, t)
+	}
+	sort.Slice(types, func(i, j int) bool { return types[i] < types[j] })
+	bin, err := buildWorker(o, types)
+	if err != nil {
+		return err
+	}
+	to := 10 * time.Minute
+	if o.Thorough() {
+		to = 40 * time.Minute
+	}
+	res, err := runWorker(bin, ids, ins, to)
+	if err != nil {
+		return err
+	}
+	for i := range ins {
+		obs, ok := res[ids[i]]
+		if !ok {
+			obs = SessionObs{Start: "none", CfgCalls: []CallObs{}, Reqs: []ReqObs{}, Extra: []CallObs{},
+				CfgErr: ErrObs{Extra: -1}, Note: "blocked: no result from the worker"}
+		}
+		w.Put(&lineio.Case{ID: ids[i], In: ins[i], Obs: obs})
+	}
+	return nil
 }
